@@ -15,12 +15,19 @@ impl Prop for P {
         "as C19 but biased to chain structure: honest chains, forks at every height, same-height siblings, gap fills from either side, removals and re-insertions from the other fork; after every mutating op the harness re-verifies every two consecutive stored headers with the real ExtendedHeader::verify_adjacent and every stored header through the hash index (get_by_hash/has). Non-trivial = every op except reset/dump."
     }
     fn gen_ops(&mut self, rng: &mut Rng, tier: Tier, out: &mut Emitter) {
-        let cfg = if tier == Tier::Thorough {
-            GenCfg { histories: 150, max_ops: 300, max_chain: 200, max_batch: 64, invalid_pct: 40, remove_w: 45, query_w: 5, sample_w: 5 }
-        } else {
-            GenCfg { histories: 40, max_ops: 60, max_chain: 30, max_batch: 8, invalid_pct: 40, remove_w: 45, query_w: 5, sample_w: 5 }
+        let mk = |histories, max_ops, max_chain, max_batch| GenCfg {
+            histories, max_ops, max_chain, max_batch,
+            dup_pct: 10, invalid_pct: 40, remove_w: 45, query_w: 5, sample_w: 5,
         };
-        gen_all(&mut self.0, rng, &cfg, out);
+        if tier == Tier::Thorough {
+            // many medium histories, plus a few at the scale the property names
+            // (chains of ~200 headers, a few hundred operations)
+            gen_all(&mut self.0, rng, &mk(80, 250, 100, 32), out);
+            gen_all(&mut self.0, rng, &mk(6, 400, 200, 64), out);
+        } else {
+            gen_all(&mut self.0, rng, &mk(30, 50, 20, 8), out);
+            gen_all(&mut self.0, rng, &mk(1, 120, 60, 16), out);
+        }
     }
     fn run(&mut self, line: &str) -> String {
         self.0.run(line)
